@@ -19,6 +19,7 @@ func init() {
 		Run: func(c *Ctx) {
 			ruleFold(c, "R1")
 			ruleConcatRank(c, "R2")
+			ruleStoredListsAreCopies(c, "R2b")
 			ruleRetroactive(c, "R3")
 			ruleWrapSites(c, "R4")
 			ruleExhaustiveWalks(c, "R3w", []*ssa.Function{c.P.MustFunc("tree.(*Tree).ApplyMiddleware")}, "the retroactive application visits every node")
@@ -67,6 +68,26 @@ func ruleFold(c *Ctx, rule string) {
 		}
 	}
 	c.R.Add(rule, c.fk(f), "returns-fold-result", c.P.Pos(f.Pos()), okRet, ifelse(okRet, "the accumulated handler is returned", "ApplyMiddleware does not return the accumulated handler"))
+}
+
+// middlewareFold: v is the result of `acc = init; for _, x := range list { acc = x.Middleware(acc, args...) }`.
+func middlewareFold(v ssa.Value) (init, list ssa.Value, args []ssa.Value, ok bool) {
+	phi, isPhi := v.(*ssa.Phi)
+	if !isPhi || len(phi.Edges) != 2 {
+		return nil, nil, nil, false
+	}
+	for i, e := range phi.Edges {
+		inv, isCall := e.(*ssa.Call)
+		if !isCall || !inv.Call.IsInvoke() || inv.Call.Method.Name() != "Middleware" || len(inv.Call.Args) < 1 || inv.Call.Args[0] != ssa.Value(phi) {
+			continue
+		}
+		_, sl, isElem := an.RangeLoopOf(inv.Call.Value)
+		if !isElem {
+			return nil, nil, nil, false
+		}
+		return phi.Edges[1-i], sl, inv.Call.Args[1:], true
+	}
+	return nil, nil, nil, false
 }
 
 func msRank(c *Ctx, t *an.Term) (int, string) {
@@ -257,10 +278,33 @@ func ruleRetroactive(c *Ctx, rule string) {
 	}
 	// (b) the walk: every handler of the map, every child, unconditionally
 	okMap, okKids := false, false
+	// the map may be rewritten by a helper that the walk calls on every path, on the same node
+	mapWalkers := []*ssa.Function{nodeApply}
 	an.AllInstrs(nodeApply, func(in ssa.Instruction) {
-		if mu, ok := in.(*ssa.MapUpdate); ok && rangeKeyOf(mu.Key, "recv."+a.FHandlers) {
-			okMap = unconditionalInLoop(in)
+		call, ok := in.(*ssa.Call)
+		if !ok {
+			return
 		}
+		g := an.StaticCallee(&call.Call)
+		if g == nil || !an.InModule(g) || an.Origin(g) == an.Origin(nodeApply) || len(g.Blocks) == 0 || len(call.Call.Args) == 0 || an.AP(call.Call.Args[0]) != "recv" {
+			return
+		}
+		always := (&an.Query{
+			Target: func(t ssa.Instruction) bool { _, ok := t.(*ssa.Return); return ok },
+			Block:  func(t ssa.Instruction) bool { return t == ssa.Instruction(call) },
+		}).Search(an.Entry(nodeApply)) == nil
+		if always {
+			mapWalkers = append(mapWalkers, an.Origin(g))
+		}
+	})
+	for _, w := range mapWalkers {
+		an.AllInstrs(w, func(in ssa.Instruction) {
+			if mu, ok := in.(*ssa.MapUpdate); ok && rangeKeyOf(mu.Key, "recv."+a.FHandlers) {
+				okMap = unconditionalInLoop(in)
+			}
+		})
+	}
+	an.AllInstrs(nodeApply, func(in ssa.Instruction) {
 		if call, ok := calleeIs(in, nodeApply); ok {
 			_, sl, isElem := an.RangeLoopOf(call.Args[0])
 			okKids = isElem && an.AP(sl) == "recv."+a.FChildren && an.AP(call.Args[1]) == "p:ms" && unconditionalInLoop(in)
@@ -321,6 +365,15 @@ func ruleRetroactive(c *Ctx, rule string) {
 		}
 		if base, field, val, ok := fieldStoreAny(in); ok && base == "recv" && field == "notFound" {
 			okNF = c.O.Of(val).String() == `call<tree.ApplyMiddleware>(recv.notFound, "", "", "", param:m)`
+			// or the same fold written out: acc = recv.notFound; for each x of m, ascending: acc = x.Middleware(acc, "", "", "")
+			if init, list, args, isFold := middlewareFold(val); !okNF && isFold && an.AP(init) == "recv.notFound" && an.AP(list) == "p:m" && len(args) == 3 {
+				okNF = true
+				for _, x := range args {
+					if sc, isC := strConst(x); !isC || sc != "" {
+						okNF = false
+					}
+				}
+			}
 		}
 	})
 	c.R.Add(rule, c.fk(guse), "forwards-to-every-router", c.P.Pos(guse.Pos()), okFwd, ifelse(okFwd, "every router of the group gets the new middlewares", "Group.Use does not forward the middlewares to every router"))
